@@ -3,6 +3,7 @@ import LdarModel.Model.Units
 import LdarModel.Generated.Units
 import LdarModel.Generated.EmisSeed
 import LdarModel.Generated.SimNumber
+import LdarModel.Generated.GenMarker
 import LdarModel.Driver.Proto
 /-
 Driver for the emission generator and the unit converter (core Lean only).
@@ -22,6 +23,7 @@ integer tokens `num den`; replies `num/den` or `none` (KeyError / ZeroDivisionEr
   batches <n>                                               -> batch_simulations(n)
   simnums <debug|pool> <n>                                  -> simulation numbers run for n requested simulations
   simnumsfrom <debug|pool> <counts>                         -> numbers run by the loop over the given batch list
+  ghist [[cfg,n,kill],...]  kill = c|i|f<k>|x                -> per run <hash_file_exist|->:<numbers generated>:<marker|->  (folder model, removal order of the tree)
   seedrange                                                 -> <low> <high>
   names                                                     -> in=[..] out=[..] inc=[..] sub=[..] temp=[..] pres=[..]
 -/
@@ -43,6 +45,35 @@ def showORat : Option Rat → String
   | some r => showRat r
 
 def showEm (e : Em) : String := s!"[{e.start},{e.id}]"
+
+
+def parseKill (s : String) : Option Kill :=
+  if s = "c" then some .afterCheck else if s = "i" then some .afterInfra else if s = "x" then some .complete
+  else if s.startsWith "f" then (s.drop 1).toNat?.map .afterFiles else none
+
+def parseRun (s : String) : Option (Nat × Nat × Kill) := do
+  match ← splitTop s with
+  | [c, n, k] => some (← nat? c, ← nat? n, ← parseKill k)
+  | _ => none
+
+/-- one run of the folder model with what the real run lets one observe: hash_file_exist (if
+setup_infrastructure was reached), the simulation numbers generated, the marker afterwards -/
+def ghistStep (r : MarkerRemoval) (acc : GFolder × List String) (x : Nat × Nat × Kill) : GFolder × List String :=
+  let (F, out) := acc
+  let (c, n, k) := x
+  let (F1, he) := infraStep r c F
+  let F' := runG r c n k F
+  let writes : List Nat :=
+    let span := fun (cut : Option Nat) =>
+      if !he then List.range (match effCut cut n with | some j => min j n | none => n)
+      else match F1.marker with
+        | none => []
+        | some m => if m < n then List.range' m ((match effCut cut (n - m) with | some j => min (m + j) n | none => n) - m) else []
+    match k with
+    | .afterCheck => [] | .afterInfra => [] | .afterFiles j => span (some j) | .complete => span none
+  let heS := match k with | .afterCheck => "-" | _ => showBool he
+  let mk := match F'.marker with | none => "-" | some m => toString m
+  (F', out ++ [s!"{heS}:{showList toString writes}:{mk}"])
 
 def step (_ : Unit) (toks : List String) : Unit × String :=
   match toks with
@@ -109,6 +140,13 @@ def step (_ : Unit) (toks : List String) : Unit × String :=
       let f : SimNum := if mode = "debug" then LdarModel.Generated.SimNumber.simNumberDebug
                         else LdarModel.Generated.SimNumber.simNumberPool
       ((), showList toString (simNumbersFrom f 0 cs))
+    | none => ((), "bad-op")
+  | ["ghist", runs] =>
+    match listOf? parseRun runs with
+    | some rs =>
+      let r : MarkerRemoval := { inInfra := LdarModel.Generated.GenMarker.removedInInfrastructure,
+                                 inEmis := LdarModel.Generated.GenMarker.removedInEmissions }
+      ((), " ".intercalate ((rs.foldl (ghistStep r) (GFolder.empty, [])).2))
     | none => ((), "bad-op")
   | ["seedrange"] =>
     ((), s!"{LdarModel.Generated.EmisSeed.seedLow} {LdarModel.Generated.EmisSeed.seedHigh}")
